@@ -43,6 +43,12 @@ def run(res, rng, tier, model_ok, replay=None):
                 cases.append({"line": "vcd %s %s %s %s" % (mode, sarg, hdr.hex(), body.hex()), "expect": exp,
                               "key": nt, "klass": "mode-" + mode.split(":")[0]})
             groups.append((start, len(body)))
+            if i % 10 == 0:
+                # the same content under a file name whose extension says something else: the format is decided by
+                # the content for every entry point (path based ones included)
+                for mode in ("st@fst", "st@ghw", "st@txt", "mt:2:0@fst", "rb@ghw"):
+                    cases.append({"line": "vcd %s %s %s %s" % (mode, sarg, hdr.hex(), body.hex()), "expect": exp, "nomodel": True,
+                                  "key": ("misnamed", i, mode) if nt is not None else None, "klass": "misnamed-file"})
         # an empty body and blank bodies through every entry point
         sigs = [gen.Sig("b", 1), gen.Sig("b", 4)]
         idents, kind, idx, nuniq = gen.assign_ids(rng, 2, "dense")
